@@ -43,6 +43,17 @@ func makeTextWF(r *Rng, g *GenRR) bool {
 		lat := uint32(1<<31) + uint32(r.Intn(2*90*3600000)) - 90*3600000
 		lon := uint32(1<<31) + uint32(r.Intn(2*180*3600000)) - 180*3600000
 		alt := uint32(r.Intn(20000000))
+		if r.Chance(30) {
+			// around the reference level (100000 m below the spheroid = 0): altitudes between -1 m and +1 m, whole metres,
+			// the ends of the range
+			alt = []uint32{9999900, 9999901, 9999950, 9999999, 10000000, 10000001, 10000050, 10000099, 10000100, 9999899, 0, 1, 99, 100,
+				4294967295, 4294967200, uint32(9999900 + r.Intn(200))}[r.Intn(17)]
+		}
+		if r.Chance(15) {
+			// latitude / longitude on the equator / prime meridian and within a second of them, and at the poles
+			lat = []uint32{1 << 31, 1<<31 - 1, 1<<31 + 1, 1<<31 - 999, 1<<31 + 999, 1<<31 + 90*3600000, 1<<31 - 90*3600000}[r.Intn(7)]
+			lon = []uint32{1 << 31, 1<<31 - 1, 1<<31 + 1, 1<<31 - 59999, 1<<31 + 180*3600000, 1<<31 - 180*3600000}[r.Intn(6)]
+		}
 		rd = []byte{0, sz(), sz(), sz()}
 		rd = putUint(rd, 4, uint64(lat))
 		rd = putUint(rd, 4, uint64(lon))
